@@ -142,63 +142,99 @@ def _tuple_path(f: Fn) -> Dict[str, object]:
     return out
 
 
+def _access_leaves(f: Fn, se, stmt_node, sub: ast.Subscript):
+    """[(facts as (text, truth), base text, selector expr)] for one subscript access, on gated values: the guards of the
+    statement and every conditional inside the selector contribute facts."""
+    from fsa.gated import canon, leaves
+    from fsa.match import nnf_atoms
+    st = stmt_node.ast
+    base = text(canon(se.value(st, sub.value)))
+    sel = canon(se.value(st, sub.slice)) if not isinstance(sub.slice, ast.Slice) else sub.slice
+    if isinstance(sub.slice, ast.Slice):
+        parts = [canon(se.value(st, x)) if x is not None else None for x in (sub.slice.lower, sub.slice.upper, sub.slice.step)]
+        sel = ast.Slice(lower=parts[0], upper=parts[1], step=parts[2])
+    site = []
+    for (a_, tr, _tn) in f.guard_atoms(stmt_node.id):
+        x = canon(se.value(st, a_))
+        for (a2, t2) in nnf_atoms(x, tr):
+            site.append((text(a2), t2))
+    out = []
+    if isinstance(sel, ast.Slice):
+        return [(site, base, sel)]
+    for (fc, v) in leaves(sel):
+        out.append((site + [(text(a_), tr) for (a_, tr) in fc], base, v))
+    return out
+
+
+def _classify_selector(key: str, facts, sel) -> str:
+    """'slice' / 'loc' / a description of what is wrong."""
+    idx = f'{key}[1]'
+    res = f'self._resolve_period_slice({idx})'
+    is_sl = (f'isinstance({idx}, slice)', True) in facts
+    not_sl = (f'isinstance({idx}, slice)', False) in facts
+    parts = None
+    if isinstance(sel, ast.Slice):
+        parts = [text(x) if x is not None else None for x in (sel.lower, sel.upper, sel.step)]
+    elif isinstance(sel, ast.Call) and isinstance(sel.func, ast.Name) and sel.func.id == 'slice' and len(sel.args) == 3 and not sel.keywords:
+        parts = [text(x) for x in sel.args]
+    if parts is not None:
+        if parts == [f'{res}[0]', f'{res}[1]', f'{res}[2]']:
+            return 'slice' if is_sl else 'slice selector used without `isinstance(index, slice)`'
+        return f'slice `{":".join(p_ or "" for p_ in parts)}` is not (start, stop, step) of _resolve_period_slice(index)'
+    if text(sel) == f'self._locate_period_in_span({idx})':
+        return 'loc' if not_sl else 'label lookup used although the index may be a slice'
+    if text(sel) == res:
+        return 'the whole (start, stop, step) tuple is used as the subscript'
+    return f'subscript `{text(sel)[:60]}` is neither the resolved slice nor the located label'
+
+
 def r2_get_set_symmetry(R) -> None:
+    from fsa.gated import SymExec
     g = Fn(R, f'{VC}.__getitem__')
     s = Fn(R, f'{VC}.__setitem__')
-    tg, ts = _tuple_path(g), _tuple_path(s)
-    for f, t in ((g, tg), (s, ts)):
-        R.check(t['slice_arg'] == t['index'] and t['loc_arg'] == t['index'], f.q, f"helpers-args:{t['slice_arg']}:{t['loc_arg']}",
-                'the index part of the key goes to the slice / label helpers', f"the helpers receive `{t['slice_arg']}` / `{t['loc_arg']}`, not the index part `{t['index']}`",
-                where=f.fi.where)
-        R.check(bool(t['slice_guard']) and bool(t['loc_guard']), f.q, 'helpers-dispatch', 'slices go to _resolve_period_slice, single labels to _locate_period_in_span',
-                'the slice/label dispatch is not `isinstance(index, slice)`', where=f.fi.where)
-    # get: <series>[a:b:c] and <series>[loc], where <series> is the array of `name`
-    sub_forms = []
+    keyg, keys_ = g.fi.params()[1], s.fi.params()[1]
+    val = s.fi.params()[2]
+    seg, ses = SymExec(g.fi.node), SymExec(s.fi.node)
+    # get: every `return <series>[...]`
+    seen = {'slice': False, 'loc': False}
+    series_g = {f'self.__getattr__({keyg}[0])', f"self.__dict__['_' + {keyg}[0]]"}
     for r in g.returns():
         v = r.ast.value
-        if isinstance(v, ast.Subscript) and (g.holds(r.id, f"isinstance({g.fi.params()[1]}, tuple)") or True):
-            base = g.etext(r.id, v.value, stop=(tg['name'],))
-            sub_forms.append((base, text(v.slice), r))
-    want_slice = ':'.join(tg['slice_names']) if len(tg['slice_names']) == 3 else None
-    series_ok = {f"self.__getattr__({tg['name']})", f"self.__dict__['_' + {tg['name']}]"}
-    seen = {'slice': False, 'loc': False}
-    for (base, sl, r) in sub_forms:
-        if base not in series_ok:
+        if not isinstance(v, ast.Subscript):
             continue
-        if sl == want_slice:
-            seen['slice'] = True
-        elif sl == tg['loc_name']:
-            seen['loc'] = True
-        else:
-            R.violation(g.q, f'get-subscript:{sl}', f'`return {text(r.ast.value)}`: the series is indexed with `{sl}`, expected `{want_slice}` or `{tg["loc_name"]}`',
-                        where=g.where(r))
+        for (facts, base, sel) in _access_leaves(g, seg, r, v):
+            if base not in series_g:
+                continue
+            kind = _classify_selector(keyg, facts, sel)
+            if kind in seen:
+                seen[kind] = True
+            else:
+                R.violation(g.q, f'get-subscript:{text(sel)[:50]}', f'`return {text(v)[:60]}`: {kind}', where=g.where(r))
     R.check(seen['slice'], g.q, 'get-slice', 'a label slice returns series[start:stop:step]', 'no `return series[start:stop:step]` for label slices', where=g.fi.where)
     R.check(seen['loc'], g.q, 'get-label', 'a single label returns series[position]', 'no `return series[position]` for single labels', where=g.fi.where)
-    # set: self.__dict__['_' + name][...] = value
-    val = s.fi.params()[2]
-    want_slice_s = ':'.join(ts['slice_names']) if len(ts['slice_names']) == 3 else None
+    # set: every store through the series named by the key
     seen = {'slice': False, 'loc': False}
+    series_s = {f"self.__dict__['_' + {keys_}[0]]"}
     for n in s.cfg.nodes:
         a = n.ast
-        if n.kind == 'stmt' and isinstance(a, ast.Assign) and isinstance(a.targets[0], ast.Subscript):
-            ds = dict_slot(a.targets[0].value)
-            if ds is None or is_underscore_key(ds[1]) is None:
-                continue
-            okb = ds[0] == 'self' and text(is_underscore_key(ds[1])) == ts['name'] and text(a.value) == val
-            R.check(okb, s.q, 'set-base:' + text(a)[:60], 'the value is written into the series named by the key', f'`{text(a)[:70]}` does not store `{val}` into the series `{ts["name"]}`',
-                    where=s.where(n))
-            sl = text(a.targets[0].slice)
-            if sl == want_slice_s:
-                seen['slice'] = True
-            elif sl == ts['loc_name']:
-                seen['loc'] = True
-            else:
-                R.violation(s.q, f'set-subscript:{sl}', f'`{text(a)[:70]}`: the series is written through `{sl}`, expected `{want_slice_s}` or `{ts["loc_name"]}` '
-                            f'(e.g. a slice without the step writes every period in between)', where=s.where(n))
+        if n.kind == 'stmt' and isinstance(a, ast.Assign) and len(a.targets) == 1 and isinstance(a.targets[0], ast.Subscript):
+            tg_ = a.targets[0]
+            for (facts, base, sel) in _access_leaves(s, ses, n, tg_):
+                ds = dict_slot(ast.parse(base, mode='eval').body) if base else None
+                if ds is None or is_underscore_key(ds[1]) is None:
+                    continue
+                okb = base in series_s and text(a.value) == val
+                R.check(okb, s.q, 'set-base:' + text(a)[:60], 'the value is written into the series named by the key',
+                        f'`{text(a)[:70]}` does not store `{val}` into the series named by the key (it stores into `{base[:50]}`)', where=s.where(n))
+                kind = _classify_selector(keys_, facts, sel)
+                if kind in seen:
+                    seen[kind] = True
+                else:
+                    R.violation(s.q, f'set-subscript:{text(sel)[:50]}', f'`{text(a)[:70]}`: {kind} (e.g. a slice without the step writes every period in between)',
+                                where=s.where(n))
     R.check(seen['slice'], s.q, 'set-slice', 'a label slice writes series[start:stop:step]', 'no store through series[start:stop:step] for label slices', where=s.fi.where)
     R.check(seen['loc'], s.q, 'set-label', 'a single label writes series[position]', 'no store through series[position] for single labels', where=s.fi.where)
     # non-tuple path: whole array
-    keyg, keys_ = g.fi.params()[1], s.fi.params()[1]
     R.check(any(is_self_call(x, '__setattr__') and [text(a) for a in x.args] == [keys_, val] for x in ast.walk(s.fi.node)), s.q, 'set-whole',
             'a plain name key replaces the whole series through __setattr__', '__setitem__(name, value) does not delegate to __setattr__(key, value)', where=s.fi.where)
     R.check(any(is_self_call(x, '__getattr__') and [text(a) for a in x.args] == [keyg] for x in ast.walk(g.fi.node)), g.q, 'get-whole',
